@@ -8,7 +8,7 @@ from .lp import DecVar, RandVar, DecLinConstr, DecCvxConstr, DecPCvxConstr
 from .lp import DecRoConstr
 from .lp import PiecewiseConvex, PWConstr, ExpPWConstr, DecLMIConstr
 from .lp import Scen
-from .lp import Solution, def_sol
+from .lp import Solution, def_sol, pad_columns
 from .subroutines import event_dict
 import numpy as np
 import pandas as pd
@@ -182,8 +182,13 @@ class Model:
 
         if self.sup_model.vars:
 
+            num_rand = self.sup_model.vars[-1].last
+            for dvar in self.dec_vars:
+                if dvar.rand_adapt is not None:
+                    dvar.rand_adapt = pad_columns(dvar.rand_adapt, num_rand,
+                                                  None, None)
             adapt_list = [dvar.rand_adapt if dvar.rand_adapt is not None else
-                          np.zeros((dvar.size, self.sup_model.vars[-1].last))
+                          np.zeros((dvar.size, num_rand))
                           for dvar in self.dec_vars]
             depend_mat = np.concatenate(adapt_list, axis=0)
             if depend_mat.sum() > 0:
